@@ -714,6 +714,14 @@ class PydModel(Model):
         st.assume(snap.t < st.old["next_ref"] if st.old else snap.t >= 1)
         new = eng.alloc(st, cls)
         self.copy_fields(st, cls, snap, new)
+        from .engine import ISDISK
+        st.assume(ISDISK(snap.t))
+        for f_, shape in eng.reg.classes.get(cls, {}).items():
+            if isinstance(shape, str) and shape.startswith("list:ref:"):
+                lst = eng.load_field(st, snap, f_)
+                i = z3.Const("i!dk", IntS)
+                st.assume(z3.ForAll([i], z3.Implies(
+                    z3.And(0 <= i, i < lst.n), ISDISK(lst.arr[i]))))
         macro = "VALID_" + cls
         if macro in eng.reg.macros:
             saved = st.locals
